@@ -169,7 +169,19 @@ def run(prog, ctx):
             good_val = vname is not None
             defs = []
             if vname:
-                for b in env.bindings.get(vname, []):
+                # the stored name and the names it is copied from (x = y): all their definitions count
+                todo, seen_n, all_bs = [vname], set(), []
+                while todo:
+                    nm_ = todo.pop()
+                    if nm_ in seen_n or len(seen_n) > 4:
+                        continue
+                    seen_n.add(nm_)
+                    for b in env.bindings.get(nm_, []):
+                        if b.kind == "assign" and isinstance(b.value, ast.Name) and b.value.id not in (pname,) and b.value.id in env.bindings:
+                            todo.append(b.value.id)
+                        else:
+                            all_bs.append(b)
+                for b in all_bs:
                     if b.kind != "assign":
                         good_val = False
                         continue
